@@ -82,7 +82,7 @@ func (n *node) digest() string {
 	if err != nil {
 		return "scan-error:" + err.Error()
 	}
-	sc.Comm, sc.HistOK, sc.HistChecked = nil, false, 0
+	sc.Comm, sc.HistOK, sc.HistChecked, sc.Height = nil, false, 0, 0
 	bz, _ := json.Marshal(sc)
 	d := sha256.Sum256(bz)
 	return hx(d[:8])
